@@ -46,6 +46,18 @@ CHECKS = {
    text='(a) Exhaustive enumeration: 8 wallet states x every single Fund/FundV2/Redistribute call for amounts 0..12 SC (+-1 H at boundaries, above balance) x useUnconfirmed x the 4x4x4 defrag option grid; every sequence of length 3 (quick) / 4 (thorough) over fund/release/sign+broadcast/mine+sync/restart/redistribute/split for 3 option settings, v1 and v2 regimes; reservation expiry under a controlled clock. (b) Schedule exploration (preemption bound 2/3) of 2-3 concurrent wallet calls and a block+sync thread on the real wallet and manager. Oracles: inputs owned/mature/unspent by pool/unreserved/unique, conservation, failed call reserves nothing, pool accepts the signed result, Balance == SpendableOutputs == model, no shared inputs.',
    note='Amount domain is whole siacoins plus boundary hastings; lock-granular interleavings; clock via the vtime seam.',
    technique='exhaustive operation-sequence enumeration against a spendability model + stateless schedule enumeration with preemption bounding', design='§4 C07'),
+ 'C08': dict(level='model_checking', engine='rhpmc',
+   text='Exhaustive enumeration of exchange sequences (length 3 quick / 4 thorough) over fund/sector-roots/append/free/replenish accounts+pools spoken by hand against the real server, the last exchange carrying each of 16 request mutations (challenge/revision signature, stale or future revision number, expired/foreign/tampered price table, renter signing a cheaper or structurally different revision, unknown contract), against the reference contractor and a contractor that trusts the server; every commit audited pairwise (revision number, both signatures over exactly the committed revision, keys/heights/collateral/addresses, payout sum, exact charge recomputed from the price table); must-reject classes leave the host byte-identical; latest revision validated by consensus on a real chain; all interleavings of the Contractor calls of two concurrent revising RPCs (try-lock and blocking-lock contractor).',
+   note='renew/refresh commits are audited in C16; core price functions trusted.',
+   technique='exhaustive sequence + fault enumeration on the real server with commit-log oracles; explicit interleaving enumeration at the Contractor seam', design='§4 C08'),
+ 'C09': dict(level='fault_enumeration', engine='rhpmc',
+   text='Contracts of 0..6 (thorough 8) sectors x every index subset: honest free, raw wire orderings, duplicates, out-of-range, every abort point and a bad signature, each followed by the honest operation; append batches with unknown roots and aborts; all length-3/4 sequences over an append/free/abort menu; both contractors. After every attempt MetaRoot(stored roots)==committed root and count*SectorSize==Filesize; failed/abandoned attempts leave the host byte-identical (or, after the renter handed over a valid signature, completely committed); successes equal the list model; RPCSectorRoots returns the model over ranges.',
+   note='synthetic sector roots; core proof code trusted.',
+   technique='exhaustive input and abort-point enumeration against a list model on the real server', design='§4 C09'),
+ 'C15': dict(level='model_checking', engine='rhpmc',
+   text='Every sequence of a funding step plus 2 (thorough 3) operations from a 34-entry alphabet (fund at R-1/R/R+1, replenish accounts/pools, attach valid/wrong signer/expired, detach by account/pool/wrong key, reads over offsets{0,32,64}x lengths{32,64,128}, write, verify) on the real server with a real 4 MiB sector and both contractors; a double-entry ledger is rebuilt from the recorded Contractor/Sectors calls and compared with a reference model after every operation.',
+   note='balances probed around the 64-byte read price; core validation/pricing trusted.',
+   technique='exhaustive operation-sequence enumeration against a reference ledger model with call-log oracles', design='§4 C15'),
  'C17': dict(level='model_checking', engine='kvmc',
    text='Explicit-state enumeration of every applicable operation sequence up to length L (quick 5 / thorough 7 in-memory, 4 / 5 Bolt) over a 2x2x3 bucket/key/value alphabet on MemDB, CacheDB(MemDB), CacheDB(CacheDB(MemDB)), BoltChainDB and CacheDB(BoltChainDB); every Bucket/Get/Iter observation after every operation is compared with a two-map reference model.',
    note='nil-valued puts excluded; nil and empty Get results not distinguished; bbolt atomic commit trusted. Chain-level clause is exercised by the C02 backend replay.',
@@ -73,6 +85,7 @@ m = {
  },
  'engines': [
   {'name': 'chainmc', 'path': 'engine/cmd/chainmc + engine/internal/{bfs,univ,ledger,recdb,node}', 'serves_properties': ['C01','C02','C03','C04','C05','C06','C13','C14','C19'], 'kind_free_text': 'explicit-state BFS over the real chain.Manager on a recording chain.DB; universes of pre-built fork trees; reference ledger built only from core/consensus'},
+  {'name': 'rhpmc', 'path': 'engine/cmd/rhpmc + engine/internal/rhpx', 'serves_properties': ['C08','C09','C10','C15','C16'], 'kind_free_text': 'real rhp4.Server behind Serve() over in-memory pipes, real client functions, recording Contractor/Sectors wrappers, hand-spoken exchanges for request mutations and abort points'},
   {'name': 'kvmc', 'path': 'engine/cmd/c17 + engine/internal/kvx', 'serves_properties': ['C17'], 'kind_free_text': 'exhaustive operation-sequence enumeration on real KV backends vs reference maps'},
   {'name': 'seedmc', 'path': 'engine/cmd/c20', 'serves_properties': ['C20'], 'kind_free_text': 'exhaustive structured input families vs independent BIP-39 reference'},
   {'name': 'sched', 'path': 'hooks/vsync + engine/internal/explore', 'serves_properties': ['C04', 'C07', 'C18'], 'kind_free_text': 'cooperative scheduler (sync shim via import re-pointing) + preemption-bounded DFS over schedules of the real code'},
